@@ -71,10 +71,19 @@ def noSharedIds (l : List Tok) : Bool :=
 def freshKey (l : List Tok) (ch u m : Nat) : Bool :=
   m == 0 || (itemsOf l).countP (fun t => t.2.2.1 == ch && t.2.2.2.1 == u && t.2.2.2.2.1 == m) == 1
 
-/-- J3/J4: successful fresh sends to one channel get strictly increasing sequences in
+/- J3/J4 (see `seqViolations`):  successful fresh sends to one channel get strictly increasing sequences in
     submission order (inside one call: item order; across calls: returned-before-begun) -/
+/-- how often a send (u, m, p) of channel ch was handed to the Appender -/
+def appendCount (l : List Tok) (ch u m p : Nat) : Nat :=
+  let reqs : List Nat := l.filterMap fun | .req r ch' _ => if ch' == ch then some r else none | _ => none
+  l.countP fun | .msg r u' m' p' _ => u' == u && m' == m && p' == p && reqs.contains r | _ => false
+
+/-- The order the property defines: successful sends to one channel submitted one after the other by one
+    caller (same call in item order, or a call that returned before the other began).  A send that was handed
+    to the Appender more than once (failed and retried, by the recovery path or by the Router) has been
+    re-submitted later and is not part of that order; neither is a send whose key occurs more than once. -/
 def seqViolations (l : List Tok) : List (Nat × Nat) :=
-  let ss := (successes l).filter fun (_, _, ch, u, m, _, _, _) => freshKey l ch u m
+  let ss := (successes l).filter fun (_, _, ch, u, m, p, _, _) => freshKey l ch u m && appendCount l ch u m p == 1
   ss.flatMap fun (c, i, ch, u, m, _, _, sq) => ss.filterMap fun (c', i', ch', _, _, _, _, sq') =>
     let bad :=
       if ch = ch' then
